@@ -880,6 +880,42 @@ func hasOpenTrailingEscape(s string) bool {
 	return n%2 == 1
 }
 
+// hasBalancedBlocks reports whether every (, [, { and every string in the CSS
+// value s is closed again, in order, and none is closed that was not opened.
+func hasBalancedBlocks(s string) bool {
+	var open []byte
+	for i := 0; i < len(s); i++ {
+		switch c := s[i]; c {
+		case '\\':
+			i++ // the escaped character is not a delimiter
+		case '"', '\'':
+			j := i + 1
+			for j < len(s) && s[j] != c {
+				if s[j] == '\\' {
+					j++
+				}
+				j++
+			}
+			if j >= len(s) {
+				return false
+			}
+			i = j
+		case '(':
+			open = append(open, ')')
+		case '[':
+			open = append(open, ']')
+		case '{':
+			open = append(open, '}')
+		case ')', ']', '}':
+			if len(open) == 0 || open[len(open)-1] != c {
+				return false
+			}
+			open = open[:len(open)-1]
+		}
+	}
+	return len(open) == 0
+}
+
 func (p *Policy) sanitizeStyles(attr html.Attribute, elementName string) html.Attribute {
 	sps := p.elsAndStyles[elementName]
 	if len(sps) == 0 {
@@ -917,6 +953,11 @@ decLoop:
 		// that follows it in the rebuilt attribute and merge two declarations
 		// into one that no matcher ever saw.
 		if hasOpenTrailingEscape(dec.Value) {
+			continue
+		}
+		// Likewise a value with an unclosed bracket or string: written back,
+		// the bracket or quote swallows the "; " and the next declaration.
+		if !hasBalancedBlocks(dec.Value) {
 			continue
 		}
 		tempProperty := strings.ToLower(dec.Property)
